@@ -1,8 +1,9 @@
 //! Spec -> impl replay of RollKernels2.tla behaviours (`op = roll2`) into the real two-series
 //! rolling entry points.
-use std::collections::BTreeMap;
+use std::collections::{BTreeMap, VecDeque};
 
 use serde_json::Value;
+use tevec::export::ndarray::Array1;
 use tevec::prelude::*;
 use tvh_common::*;
 
@@ -138,6 +139,28 @@ pub fn replay_beh2(b: &Beh2, kernels: &[String], j: &mut Judge, full: bool, laws
         let c: Vec<f64> = enc_vec(&b.ys);
         let got = run_pair::<f64, _, _, f64, Vec<f64>>(k, &a, &c, w, mp, true);
         j.compare(fname, &key, "Vec<f64>x2->Vec<f64>/to", &got, exps, case);
+        // deques whose storage wraps (iterator bodies + positional reads) and the option view
+        let (da, dc) = (crate::roll1::rotated(&a, a.len() / 2 + 1), crate::roll1::rotated(&c, 1));
+        let got = run_pair::<f64, _, _, f64, Vec<f64>>(k, &da, &dc, w, mp, false);
+        j.compare(fname, &key, "VecDeque<f64>(wrapped)x2->Vec<f64>/ret", &got, exps, case);
+        let got = run_pair::<f64, _, _, f64, VecDeque<f64>>(k, &da, &c, w, mp, true);
+        j.compare(fname, &key, "VecDeque<f64>(wrapped)+Vec<f64>->VecDeque<f64>/to", &got, exps, case);
+        {
+            let (oa, oc) = (a.opt(), c.opt());
+            let got = run_pair::<Option<f64>, _, _, f64, Vec<f64>>(k, &oa, &oc, w, mp, false);
+            j.compare(fname, &key, "OptIter<Vec<f64>>x2->Vec<f64>/ret", &got, exps, case);
+        }
+        // caller-supplied output buffers in layouts the library does not allocate itself
+        let got = run_pair::<f64, _, _, f64, VecDeque<f64>>(k, &a, &c, w, mp, Path::Odd(0));
+        j.compare(fname, &key, "Vec<f64>x2->VecDeque<f64>/to(wrapped ring)", &got, exps, case);
+        let got = run_pair::<f64, _, _, f64, Array1<f64>>(k, &a, &dc, w, mp, Path::Odd(0));
+        j.compare(fname, &key, "Vec<f64>+VecDeque<f64>->Array1<f64>/to(step 2 view)", &got, exps, case);
+        if full {
+            let got = run_pair::<f64, _, _, f64, Array1<f64>>(k, &da, &dc, w, mp, Path::Odd(1));
+            j.compare(fname, &key, "VecDeque<f64>(wrapped)x2->Array1<f64>/to(reversed view)", &got, exps, case);
+            let got = run_pair::<f64, _, _, f64, Vec<f64>>(k, &a, &c, w, mp, Path::Odd(0));
+            j.compare(fname, &key, "Vec<f64>x2->Vec<f64>/to(sub-slice)", &got, exps, case);
+        }
         let (sa, sc) = (Spy::new(1, a.clone()), Spy::new(2, c.clone()));
         clear_log();
         let got = run_pair::<f64, _, _, f64, SpyOut<f64>>(k, &sa, &sc, w, mp, true);
